@@ -202,6 +202,13 @@ class DictInterp:
                             recv.items[k] = self._expr(fi, e.args[1], env)
                             recv.origin[k] = fi
                         return recv.items[k]
+                    if m == "update" and not e.args and e.keywords and all(k.arg for k in e.keywords):
+                        for k in e.keywords:
+                            recv.items[k.arg] = self._expr(fi, k.value, env)
+                            recv.origin[k.arg] = fi
+                            if cond:
+                                recv.conditional.add(k.arg)
+                        return None
                     if m == "update" and len(e.args) == 1:
                         u = self._expr(fi, e.args[0], env)
                         if isinstance(u, DV):
